@@ -54,6 +54,9 @@ type AVal struct {
 	Any   interface{}            // an opaque statically known value (e.g. a *unicode.RangeTable read off its literal)
 	Facts map[*ssa.Function]bool // outcomes of pure predicates already decided for this unknown on the path
 	Expr  *AExpr                 // how an unknown was computed from other values (operators, external calls)
+	// TypedNil: a nil pointer wrapped into an interface — nil for every use, but
+	// it does not compare equal to the nil interface
+	TypedNil bool
 }
 
 // AExpr: a symbolic expression over abstract values.
@@ -711,6 +714,9 @@ func (ai *AInterp) eval(fr *aFrame, st *AState, v ssa.Value) AVal {
 		a, b := fr.get(ai, st, x.X), fr.get(ai, st, x.Y)
 		switch x.Op {
 		case token.EQL, token.NEQ:
+			if a.Kind == avNil && b.Kind == avNil && a.TypedNil != b.TypedNil {
+				return aBool(x.Op == token.NEQ) // interface holding a nil pointer vs the nil interface
+			}
 			if a.Kind == avNil && b.Kind == avNil {
 				return aBool(x.Op == token.EQL)
 			}
@@ -791,9 +797,15 @@ func (ai *AInterp) eval(fr *aFrame, st *AState, v ssa.Value) AVal {
 	case *ssa.MakeInterface:
 		a := fr.get(ai, st, x.X)
 		a.Dyn = x.X.Type()
+		if a.Kind == avNil {
+			if _, isI := x.X.Type().Underlying().(*types.Interface); !isI {
+				a.TypedNil = true
+			}
+		}
 		return a
 	case *ssa.TypeAssert:
 		a := fr.get(ai, st, x.X)
+		a.TypedNil = false
 		if a.Dyn != nil {
 			var ok bool
 			if it, isI := x.AssertedType.Underlying().(*types.Interface); isI {
